@@ -170,7 +170,7 @@ func createDashboard(req *CreateDashboardRequest, myid int64) (map[string]string
 		return nil, fmt.Errorf("createDashboard: failed to marshal dashboard details: %v", err)
 	}
 
-	if err := os.WriteFile(dashboardDetailsFname, detailsData, 0644); err != nil {
+	if err := utils.AtomicWriteFile(dashboardDetailsFname, detailsData, utils.Truncate); err != nil {
 		return nil, fmt.Errorf("createDashboard: failed to write dashboard details: %v", err)
 	}
 
@@ -220,7 +220,7 @@ func toggleFavorite(id string, myid int64) (bool, error) {
 		return false, err
 	}
 
-	err = os.WriteFile(dashboardDetailsFname, updatedDashboardJson, 0644)
+	err = utils.AtomicWriteFile(dashboardDetailsFname, updatedDashboardJson, utils.Truncate)
 	if err != nil {
 		log.Errorf("toggleFavorite: Failed to write file=%v, err=%v", dashboardDetailsFname, err)
 		return false, err
@@ -326,7 +326,7 @@ func refreshFolderMetadata(id string, dashboardDetails map[string]interface{}, m
 		return err
 	}
 
-	return os.WriteFile(dashboardDetailsFname, detailsData, 0644)
+	return utils.AtomicWriteFile(dashboardDetailsFname, detailsData, utils.Truncate)
 }
 
 func updateDashboard(id string, dName string, dashboardDetails map[string]interface{}, myid int64) error {
@@ -433,7 +433,7 @@ func updateDashboard(id string, dName string, dashboardDetails map[string]interf
 		return fmt.Errorf("updateDashboard: failed to marshal dashboard details: %v", err)
 	}
 
-	if err := os.WriteFile(dashboardDetailsFname, detailsData, 0644); err != nil {
+	if err := utils.AtomicWriteFile(dashboardDetailsFname, detailsData, utils.Truncate); err != nil {
 		return fmt.Errorf("updateDashboard: failed to write dashboard details: %v", err)
 	}
 
